@@ -1,4 +1,5 @@
 import RbV.Lemmas.C15b
+import RbV.Lemmas.C15c
 /-!
 # C15 — log-space probability arithmetic agrees with linear-space arithmetic (real-number theorems, PARTIAL)
 
@@ -175,6 +176,24 @@ theorem prob_phred_roundtrip (p : ℝ) (hp : 0 < p) : exp (-(-10 * (log p / log 
 theorem logprob_phred_roundtrip (x : ℝ) : x * (-10 / log 10) * (-(log 10 / 10)) = x := by
   have h10 : log 10 ≠ 0 := (log_pos (by norm_num)).ne'
   field_simp
+
+/-! ### the fast exponential: the bit trick is exact, only the polynomial approximates -/
+
+/-- if the polynomial `P` approximates `2^y` on `(-1, 0]` with relative error `δ`, then
+`fastexp x = 2^⌈x/ln 2⌉ · P(x/ln 2 − ⌈x/ln 2⌉)` satisfies the accuracy hypothesis `ApproxExp · δ` used by all
+error theorems above (so the measured quantity is the accuracy of one polynomial on one unit interval) -/
+theorem fastexp_reduction (P : ℝ → ℝ) (δ : ℝ)
+    (hP : ∀ y : ℝ, -1 < y → y ≤ 0 → |P y - exp (y * log 2)| ≤ δ * exp (y * log 2)) :
+    ApproxExp (fastexpModel P) δ :=
+  fastexpModel_approx P δ hP
+
+/-- the source's polynomial is exact at both ends of the interval up to 5·10⁻⁶: `P(0) = 1 = 2⁰`, `|P(-1) − 2⁻¹| < 5·10⁻⁶` -/
+theorem fastexp_poly_endpoints :
+    fastexpPoly 4.831794110 0.143440676 0.019890581 0.006935931 0 = 1 ∧
+    |fastexpPoly 4.831794110 0.143440676 0.019890581 0.006935931 (-1) - 1 / 2| < 5 / 10 ^ 6 := by
+  unfold fastexpPoly
+  refine ⟨by norm_num, ?_⟩
+  rw [abs_lt]; constructor <;> norm_num
 
 /-! ### non-vacuity -/
 
